@@ -65,9 +65,15 @@ GraphQL refresh that follows completes.  If that refresh aborts -- a transient G
 github_status(None) -> ValueError while a *required CheckRun is in progress* (GraphQL conclusion null) -- _update exits
 with github_changed already cleared, and the next notify_batch_changed-driven _update (which does not refresh GitHub)
 builds the new head and merges it with the approval / check results of the old head, or with check results that the
-last response CI was served contradicted.  Signatures: C30/merged/required_check_not_success/ci_view_differs (needs no
-injected fault), C30/merged/not_approved/ci_view_differs, C30/merged/unrefreshed_new_head/not_approved,
-C30/merged/unrefreshed_new_head/required_check_not_success.
+last response CI was served contradicted.  Signatures:
+  C30/merged/required_check_not_success/ci_view_differs  -- needs no injected fault: a complete answer listing a pending
+      / failed required check was delivered, github_status(None) raised while CI digested it, CI kept the old results;
+  C30/merged/unrefreshed_new_head/not_approved, C30/merged/unrefreshed_new_head/required_check_not_success -- the
+      refresh after the listing that announced the new head failed (one transient GitHub error is enough), the review
+      decision / checks CI holds are those of the older head, the merged head is unapproved / has a non-successful
+      required check.
+(A GraphQL answer counts as served once its last page is delivered; a series that breaks off between pages leaves the
+previous answer in place, so CI is not blamed for discarding partial results.)
 Other observations (not asserted): an AssertionError in is_mergeable of a higher-priority PR aborts try_to_merge for
 the whole branch (probe end_green_unmerged); with a merge whose acknowledgement is lost CI can merge a second PR on
 the same target observation (probe merge_after_unacked_merge; exempt because CI was told the first merge failed).
